@@ -143,7 +143,7 @@ NA = {
            "(DESIGN.md section 5).",
 }
 
-BUILT = ["C01", "C02", "C03", "C04", "C05", "C06", "C08", "C09", "C10", "C11", "C12", "C13", "C14", "C15", "C16", "C19"]
+BUILT = ["C01", "C02", "C03", "C04", "C05", "C06", "C07", "C08", "C09", "C10", "C11", "C12", "C13", "C14", "C15", "C16", "C18", "C19"]
 
 
 def main():
